@@ -222,14 +222,18 @@ func init() {
 		"Bundle":      func() []fhir.Resource { return []fhir.Resource{lib.Bundle()} },
 	}
 	evSrcs := []string{"Patient.name.where(use = 'official').given", "Bundle.entry.resource.name.select(given.first() & ' ' & family)", "now() > @2020-01-01T00:00:00Z and today() = now().toString().substring(0,10).toDate()",
-		"%v + 1", "Patient.name.given[%v]", "Observation.value.value * 2", "Patient.name.given.distinct().count()", "iif(%context.id.exists(), %context.id, 'none')", "Patient.name.all(given.count() > 0) and Patient.telecom.rank.exists($this > 1)"}
+		"%v + 1", "Patient.name.given[%v]", "%col.where($this is Integer and $this > %v)", "%col.skip(1).select($this.toString()).exists($this = '2')", "Observation.value.value * 2", "Patient.name.given.distinct().count()", "iif(%context.id.exists(), %context.id, 'none')", "Patient.name.all(given.count() > 0) and Patient.telecom.rank.exists($this > 1)"}
 	optNames := []string{"v=1", "v=2"}
-	mkOpts := func(o string) []fhirpath.EvaluateOption {
+	// col: a caller-owned collection; the history shares one, the isolated reference gets a fresh one
+	newCol := func() system.Collection {
+		return system.Collection{system.Integer(1), system.Integer(2), system.Integer(3), system.String("x")}
+	}
+	mkOpts := func(o string, col system.Collection) []fhirpath.EvaluateOption {
 		v := system.Integer(1)
 		if o == "v=2" {
 			v = 2
 		}
-		return []fhirpath.EvaluateOption{evalopts.OverrideTime(lib.PinnedNow), evalopts.EnvVariable("v", v)}
+		return []fhirpath.EvaluateOption{evalopts.OverrideTime(lib.PinnedNow), evalopts.EnvVariable("v", v), evalopts.EnvVariable("col", col)}
 	}
 	var evAlphabet []c04Ev
 	for _, s := range evSrcs {
@@ -243,7 +247,7 @@ func init() {
 
 	core.Register(&core.Check{
 		ID: "C04",
-		Rule: "schedules: preemption-bounded depth-first exploration (bound 2 quick / 3 thorough, iterated 0,1,2,...) of every interleaving of 2-3 threads at the scheduling points the instrumenter inserts at every function entry, loop iteration and package-level variable access of the current tree (controlled cooperative scheduler, executions run to completion, prefix replay checked), for 13 scenarios (shared compiled expression x shared resource for every node kind, custom functions incl. nested calls, Compile with AddFunction/WithExperimentalFuncs in parallel, a shared patch expression on two resources, 3 threads); per execution: each thread's observation equals its isolated observation, no write to a package-level variable, inputs unchanged. Compile histories: every sequence of length <=3 (quick) / <=4 (thorough) over an 11-call alphabet (plain, AddFunction fresh/again/built-in name/experimental name, WithExperimentalFuncs, Permissive, patch.Compile, Transform): the observable Compile state (probe programs + reflective table snapshot) never leaves the initial state and each call's outcome equals its outcome in the empty history. Evaluate histories: every sequence of length <=2 (quick) / <=3 (thorough) over 54 (expression, resource, options) evaluations on shared compiled expressions: each result equals the isolated result and earlier results are unchanged afterwards. Process histories: every rotation of a 170-odd element alphabet, one fresh process each, so that every ordered pair of calls occurs with the first before the second; each outcome must equal the outcome of that call as the first call of a fresh process (catches process-wide memo tables and caches keyed too coarsely). Clock: now()/today()/timeOfDay() programs x 12 override instants denote exactly the override; the whole date/time battery gives identical results under TZ in {UTC, Asia/Kolkata, America/St_Johns, Pacific/Chatham}. A free-running -race pass of the scenario bodies (a sample of OS schedules, labelled as such) can only add violations; non-trivial = distinct (history | schedule, observation vector)",
+		Rule: "schedules: preemption-bounded depth-first exploration (bound 2 quick / 3 thorough, iterated 0,1,2,...) of every interleaving of 2-3 threads at the scheduling points the instrumenter inserts at every function entry, loop iteration and package-level variable access of the current tree (controlled cooperative scheduler, executions run to completion, prefix replay checked), for 13 scenarios (shared compiled expression x shared resource for every node kind, custom functions incl. nested calls, Compile with AddFunction/WithExperimentalFuncs in parallel, a shared patch expression on two resources, 3 threads); per execution: each thread's observation equals its isolated observation, no write to a package-level variable, inputs unchanged. Compile histories: every sequence of length <=3 (quick) / <=4 (thorough) over an 11-call alphabet (plain, AddFunction fresh/again/built-in name/experimental name, WithExperimentalFuncs, Permissive, patch.Compile, Transform): the observable Compile state (probe programs + reflective table snapshot) never leaves the initial state and each call's outcome equals its outcome in the empty history. Evaluate histories: every sequence of length <=2 (quick) / <=3 (thorough) over 66 (expression, resource, options) evaluations, two of them over a caller-owned collection that the whole history shares on shared compiled expressions: each result equals the isolated result and earlier results are unchanged afterwards. Process histories: every rotation of a 170-odd element alphabet, one fresh process each, so that every ordered pair of calls occurs with the first before the second; each outcome must equal the outcome of that call as the first call of a fresh process (catches process-wide memo tables and caches keyed too coarsely). Clock: now()/today()/timeOfDay() programs x 12 override instants denote exactly the override; the whole date/time battery gives identical results under TZ in {UTC, Asia/Kolkata, America/St_Johns, Pacific/Chatham}. A free-running -race pass of the scenario bodies (a sample of OS schedules, labelled as such) can only add violations; non-trivial = distinct (history | schedule, observation vector)",
 		Assumptions: []string{"scheduling points are function entries, loop iterations and package-variable accesses; finer-grained unsynchronised accesses are only seen by the free-running -race pass", "more than 3 threads and more than 3 preemptions are not explored"},
 		Subs: func(tier string) []core.Sub {
 			histLen, evLen := 3, 2
@@ -291,6 +295,7 @@ func init() {
 					}
 					var earlier []done
 					var hist []string
+					sharedCol := newCol() // owned by the caller for the whole history
 					for _, ei := range seq {
 						ev := evAlphabet[ei]
 						hist = append(hist, fmt.Sprintf("%s on %s with %s", ev.src, ev.res, ev.opts))
@@ -298,7 +303,7 @@ func init() {
 						if e == nil {
 							continue
 						}
-						coll, err := e.Evaluate(resources[ev.res](), mkOpts(ev.opts)...)
+						coll, err := e.Evaluate(resources[ev.res](), mkOpts(ev.opts, sharedCol)...)
 						r.Eval()
 						got := lib.ShowColl(coll)
 						if err != nil {
@@ -306,7 +311,7 @@ func init() {
 						}
 						// the isolated result: a freshly compiled expression
 						fresh, _ := fhirpath.Compile(ev.src)
-						wc, werr := fresh.Evaluate(resources[ev.res](), mkOpts(ev.opts)...)
+						wc, werr := fresh.Evaluate(resources[ev.res](), mkOpts(ev.opts, newCol())...)
 						want := lib.ShowColl(wc)
 						if werr != nil {
 							want = "ERROR"
@@ -320,6 +325,9 @@ func init() {
 							}
 						}
 						earlier = append(earlier, done{ev, coll, lib.ShowColl(coll)}) // the collection as returned (nil after an error)
+					}
+					if lib.ShowColl(sharedCol) != lib.ShowColl(newCol()) {
+						r.Fail("evaluate-history|caller-owned-collection-changed", core.W{"history": hist, "collection_now": lib.ShowColl(sharedCol), "collection_before": lib.ShowColl(newCol())})
 					}
 					r.State(fmt.Sprintf("evaluate-history|len=%d", len(seq)))
 					r.Nontrivial(strings.Join(hist, ";"))
